@@ -220,6 +220,28 @@ def oracle(ck: Check, tier, deep=False):
                                  f"second application changes the result by {np.abs(S2 - S).max():.3g}")
 
 
+def oracle_scales(ck: Check, tier):
+    """symmetrisation is linear: an image of tiny amplitude, or a small asymmetric pattern on a large pedestal, is symmetrised like any other
+    (no test of "already symmetric" with an absolute or relative tolerance may skip the work)"""
+    rng = np.random.default_rng(seed() + 6066)
+    for (r, c) in ((6, 7), (5, 5)) if tier == "quick" else ((6, 7), (5, 5), (9, 4), (8, 8)):
+        pat = rng.normal(size=(r, c))
+        for (axname, axis, code) in AXES:
+            if code == "none":
+                continue
+            for method in ("average", "fourier"):
+                base = np.array(_impl_sym(pat, axis, (True,) * 4, method)[0])          # (the four quadrants as returned: reassembly mirrors one side over the other)
+                for label, im, back in (("tiny", 1e-9 * pat, lambda S: S / 1e-9), ("tiny-offset", 1.0 + 1e-9 * pat, lambda S: (S - 1.0) / 1e-9),
+                                         ("pedestal", 1e4 + 0.04 * pat, lambda S: (S - 1e4) / 0.04), ("large", 1e12 * pat, lambda S: S / 1e12)):
+                    ck.count(("S.scale", r, c, axname, method, label), suite="S.property")
+                    S = np.array(_impl_sym(im, axis, (True,) * 4, method)[0])
+                    tol = {"tiny": 1e-12, "tiny-offset": 1e-5, "pedestal": 1e-7, "large": 1e-12}[label]      # (rounding of the pedestal, in units of the pattern)
+                    dev = np.abs(back(S) - base).max()
+                    if not dev <= tol * max(1.0, np.abs(base).max()):
+                        ck.violation(dict(site="get_image_quadrants", clause="symmetrise-scale", method=method), dict(shape=[r, c], symmetry_axis=repr(axis), method=method, image=label),
+                                     f"{method} symmetrisation about {axis!r} of the '{label}' image is not that of the pattern it carries (off by {dev:.3g} in units of the pattern)")
+
+
 def oracle_dtypes_reorient(ck: Check, tier):
     """'all real images': integer images (camera frames) are averaged as their values — sums must not wrap around;
     reorient=False: the quadrants come back un-flipped without symmetrisation, and every form of a symmetry request is refused
@@ -300,6 +322,19 @@ def oracle_transform(ck: Check, tier):
                              f"abel.Transform: quadrant {'undefined but accepted' if not raised else 'defined but rejected'}")
             elif not raised and not np.all(np.isfinite(t)):
                 ck.violation(dict(sig, clause="finite"), rep, "abel.Transform: non-finite output for an admissible request")
+            elif not raised and c % 2 == 1 and code != "none":
+                # an admissible request transforms the symmetrised image — the mean of the input and its mirror image(s) over the enabled
+                # quadrants (ref_symmetrise) — whichever quadrants the mask leaves out: the same transform without symmetrisation
+                sym = ref_symmetrise(im, code, mask)
+                try:
+                    want = quiet(abel.Transform, sym, method="two_point", transform_options=dict(basis_dir=None)).transform
+                except Exception as e:
+                    ck.violation(dict(sig, clause="exception"), rep, f"unexpected {type(e).__name__}: {e}")
+                    continue
+                if t.shape != want.shape or np.abs(t - want).max() > 1e-11 * max(1.0, np.abs(want).max()):
+                    ck.violation(dict(sig, clause="transform-of-symmetrised-image"), rep,
+                                 f"abel.Transform(symmetry_axis={axis!r}, use_quadrants={mask}) is not the transform of the image symmetrised over the enabled "
+                                 f"quadrants (differs by {np.abs(t - want).max() if t.shape == want.shape else 'shape'})")
 
 
 def run(tier):
@@ -323,6 +358,7 @@ def run(tier):
         correspondence(ck, tier)
     oracle_transform(ck, tier)
     oracle_dtypes_reorient(ck, tier)
+    oracle_scales(ck, tier)
     oracle(ck, tier, deep=bool(ck.broken) or tier == "thorough")
     return ck.finish()
 
